@@ -165,6 +165,16 @@ func (fr *Frame) step(ins ssa.Instruction, st *State, pc Term) bool {
 			tv.V = append(tv.V, m.FreshValue(st, "select_recv", tt.At(i).Type()))
 		}
 		fr.env[x] = tv
+		// ghost counter of channel sends (see *ssa.Send): a select performs the send of the chosen case only
+		for i, sc := range x.States {
+			if sc.Dir == types.SendOnly {
+				cur, ok := st.ghost["chansends"]
+				if !ok {
+					cur = u.ghostInit("chansends")
+				}
+				st.ghost["chansends"] = u.c.Def("chansends", Add(cur, Ite(Eq(idx, IntLit(int64(i))), IntLit(1), IntLit(0))))
+			}
+		}
 	case *ssa.TypeAssert:
 		fr.env[x] = fr.typeAssert(x, st, pc)
 	case *ssa.Extract:
@@ -195,7 +205,13 @@ func (fr *Frame) step(ins ssa.Instruction, st *State, pc Term) bool {
 		}
 		m.StoreVal(st, p, sv)
 	case *ssa.Send:
-		// channel send: no heap effect
+		// channel send: no heap effect; counted in the ghost counter ghost("chansends"), so that a contract can say
+		// "this function queues its argument on every path" (channels themselves are not modelled)
+		cur, ok := st.ghost["chansends"]
+		if !ok {
+			cur = u.ghostInit("chansends")
+		}
+		st.ghost["chansends"] = u.c.Def("chansends", Add(cur, IntLit(1)))
 	case *ssa.Go:
 		u.unsupportedf("go statement in %s", fr.fn.Name())
 	case *ssa.Defer:
